@@ -181,7 +181,7 @@ pub fn decode_85(data: &[u8]) -> Result<Vec<u8>> {
     let mut out = Vec::with_capacity((data.len() + 4) / 5 * 4);
     
     let mut stream = data.iter().cloned()
-        .filter(|&b| !matches!(b, b' ' | b'\n' | b'\r' | b'\t'));
+        .filter(|&b| !matches!(b, 0 | b'\t' | b'\n' | 12 | b'\r' | b' '));
 
     let mut symbols = stream.by_ref()
         .take_while(|&b| b != b'~');
